@@ -198,6 +198,8 @@ impl Db {
 
         if rebuild {
             log::info!("rebuilding search index at {}", config.index_path.display());
+            #[cfg(anything_verif)]
+            crate::verif::crash_point(6);
 
             // The metadata must stop vouching for the index before it is
             // rewritten in place, otherwise an interrupted rebuild leaves
